@@ -28,20 +28,20 @@ VALS = {
     "method": ["PATCH", "post", 5, None, "G ET", "", SUR, INF, [1], {"a": 1}, DEEP],
     "scheme": ["https", "", "ftp", 7, SUR, NAN],
     "host": ["example.org", "a..b", "ex ample", "x" * 70 + ".de", 5, "münchen.de", "[::1]", "", SUR, "\udcff", INF, ["h"]],
-    "path": ["/x", "/edit?a=b", "", 5, None, "no-slash", SUR, {"p": 1}],
+    "path": ["/x", "/edit?a=b", "", "/" + "p" * 20000, 5, None, "no-slash", SUR, {"p": 1}],
     "http_version": ["HTTP/2.0", "HTTP/1.0", 1.1, "bogus", SUR, INF],
     # int() raises ValueError for text/NaN, TypeError for null/containers, OverflowError for infinities
-    "port": [123, "456", "abc", None, 1.5, [1], " 7 ", -1, 70000, True, "", "0x10", {"a": 1},
+    "port": [123, "456", 0, 65535, 65536, 2 ** 31, "70000", "-1", "abc", None, 1.5, [1], " 7 ", -1, 70000, True, "", "0x10", {"a": 1},
              INF, -INF, NAN, 1e300, 10 ** 30, -10 ** 30, "1e999", "Infinity", DEEP, SUR, "١٢٣"],
-    "code": [404, "200", "x", None, 2.7, 99999, [], "", -5, INF, -INF, NAN, 1e300, 10 ** 30, DEEP, SUR, "inf"],
-    "reason": ["Non-Autorisé", "OK", 5, "", SUR, INF, [1]],
+    "code": [404, "200", 0, 99, 1000, "0", -1, "x", None, 2.7, 99999, [], "", -5, INF, -INF, NAN, 1e300, 10 ** 30, DEEP, SUR, "inf"],
+    "reason": ["Non-Autorisé", "OK", 5, "", "r" * 20000, SUR, INF, [1]],
     "headers": [[["a", "b"]], [["a", "b"], ["c"]], [["a", 1]], "ab", 5, None, [["a", "b", "c"]], [],
                 [["Host", "x"], ["Content-Type", "text/plain; charset=latin-1"]], [["a", "b"], 7], [[]],
                 [["k", "v1"], ["k", "v2"]], {"a": "b"}, [["näme", "väl"]], [None], [["a", None]],
                 [["a", SUR]], [[SUR, "b"]], [["a", INF]], INF, DEEP, [["a", "b"], [["x"], "y"]], [["a", "b"], {"k": "v"}]],
     "content": ["text", None, 5, ["x"], "ünï", "", {"a": 1}, "a\x00b", SUR, INF, NAN, DEEP, True],
     "marked": [":red_circle:", "", "x", ":grapes:"],
-    "comment": ["a comment", "", "zz"],
+    "comment": ["a comment", "", "zz", "c" * 20000],
 }
 VALS["trailers"] = VALS["headers"]
 BOGUS_KEYS = ["bogus", "Method", "status_code", "id", ""]
@@ -226,7 +226,9 @@ class Check(PropertyCheck):
             "malformed header/trailer lists, odd hosts and non-text contents; the per-field value pools include inputs on which the "
             "real setters raise exception classes other than ValueError/TypeError/AttributeError (non-finite floats -> "
             "OverflowError), lone surrogates, huge ints and deeply nested containers; initial flows also come with EMPTY header lists and with "
-            "absent / empty / non-empty trailers on either message, and sessions in which an accepted update first empties them (~60% all-valid, ~40% with >=1 invalid part at a "
+            "absent / empty / non-empty trailers on either message, sessions in which an accepted update first empties them, and sessions "
+            "whose first, accepted edit stores boundary / out-of-range values (ports -1..2**31, status codes 0/99/1000, empty or "
+            "huge strings) before a mixed valid+invalid document (~60% all-valid, ~40% with >=1 invalid part at a "
             "random position). distinct = distinct session; non-trivial = at least one field update reached a setter.")
     budget = {"quick": 1500, "thorough": 40000}
     time_budget = {"quick": 35, "thorough": 500}
@@ -331,6 +333,18 @@ class Check(PropertyCheck):
                 bad = rng.pick([("port", "abc"), ("bogus", 1), ("code", "x"), ("headers", [["a"]])])
                 docs[-1] = {msg: {"headers": [["n1", "v1"]], "trailers": [["t1", "v1"]], "content": "new", bad[0]: bad[1]}} \
                     if rng.chance(0.6) else docs[-1]
+            if rng.chance(0.2):
+                first = {"request": {k: v for k, v in (("port", rng.pick([-1, 0, 65535, 65536, 70000, 2 ** 31])),
+                                                       ("method", rng.pick(["", "M" * 5000, "PATCH"])), ("path", rng.pick(["", "/b", "*"])),
+                                                       ("host", rng.pick(["", "h" * 300, "a..b"])), ("scheme", rng.pick(["", "ftp"])))
+                                     if rng.chance(0.6)},
+                         "response": {k: v for k, v in (("code", rng.pick([0, 99, 1000, -1, 2 ** 31])), ("reason", rng.pick(["", "r" * 5000])),
+                                                        ("http_version", rng.pick(["", "HTTP/9.9"]))) if rng.chance(0.6)}}
+                if kind == "noresp": first.pop("response")
+                bad = rng.pick([("port", "abc"), ("bogus", 1), ("headers", [["a"]]), ("content", 5)])
+                second = {"comment": "second", "request": {"method": "DELETE", "path": "/changed", bad[0]: bad[1]}}
+                if kind != "noresp" and rng.chance(0.5): second = {"response": {"code": 418, "reason": "teapot"}, **second}
+                docs = [first, second] + docs[:1]
             c = {"flow": kind, "pre_backup": int(rng.chance(0.25)), "docs": docs}
             if init: c["init"] = init
             yield c
@@ -355,10 +369,14 @@ class Check(PropertyCheck):
         eff = 0
         vals = {}                       # effect id -> digest of what that write left in its field (set) / the pair it added (add)
         orig = fields_view(f)
+        committed = []                  # every step of the accepted documents so far
         for doc in case["docs"]:
             resp_mode = 0 if not hasattr(f, "response") else (2 if f.response else 1)
             pl = plan(doc, has_req, resp_mode)
-            scratch = f.copy(); scratch.id = f.id
+            # the scratch flow is rebuilt from the initial flow through the public setters only (never via
+            # get_state/from_state/copy: those are part of what is being checked)
+            scratch = mkflow(case["flow"], case.get("init"))
+            for st_ in committed: st_(scratch)
             toks, failed, effects, done = [], False, [], []
 
             def run(steps):
@@ -414,6 +432,7 @@ class Check(PropertyCheck):
                 # commit on the reference flow exactly what the handler is specified to do on success
                 f.backup()
                 for s in done: s(f)
+                committed += done
         return out
 
     def impl(self, case):
